@@ -444,6 +444,10 @@ func runCase(c string) string {
 				return fmt.Sprintf("ok len %d", len(v))
 			}
 		})
+	case "jbad":
+		return jbadRun(f)
+	case "vsrc":
+		return vsrcRun(f)
 	case "nosrc":
 		pre := f[2] == "1"
 		ps, _ := strconv.Atoi(f[3])
@@ -509,9 +513,10 @@ func runCase(c string) string {
 
 func main() {
 	if len(os.Args) == 4 && os.Args[1] == "oracle" {
-		vh.WriteLines(os.Args[3], a07ammo.Oracle(vh.ReadLines(os.Args[2])))
+		vh.WriteLines(os.Args[3], oracleAll(vh.ReadLines(os.Args[2])))
 		return
 	}
+	initPlugins()
 	if len(os.Args) == 3 && os.Args[1] == "one" {
 		fmt.Println(runCase(os.Args[2]))
 		return
